@@ -292,9 +292,6 @@ func c03RunForced(c c03Case) error {
 			sort.Strings(missing)
 			return fmt.Errorf("Alphabet() lists %q but forcing every index of the %d-way draw never produced %q", strings.Join(ab, ""), n, missing)
 		}
-		if int(n) != len(ab) {
-			return fmt.Errorf("characters are drawn from %d alternatives but the alphabet has %d characters", n, len(ab))
-		}
 	} else {
 		ev.Class("converse_not_judged")
 	}
